@@ -439,9 +439,11 @@ pub fn run_c35(tier: Tier, seed: u64) -> i32 {
                     stop(nodes).await;
                     continue;
                 }
-                let peer = nodes.pop().unwrap();
+                let mut peer = nodes.pop();
                 if scenario == "peer-died-still-listed" {
-                    peer.h.shutdown().await;
+                    if let Some(p) = peer.take() {
+                        p.h.shutdown().await;
+                    }
                 }
                 // statements over the table whose copies differ (names[0]); only shapes auto distributes matter
                 for (k, sql) in [format!("SELECT COUNT(*) FROM {}", names[0]), format!("SELECT id FROM {} WHERE id >= 0", names[0]), format!("SELECT COUNT(*), MIN(id), MAX(id) FROM {}", names[0])].iter().enumerate() {
@@ -463,8 +465,8 @@ pub fn run_c35(tier: Tier, seed: u64) -> i32 {
                         }
                     }
                 }
-                if scenario != "peer-died-still-listed" {
-                    peer.h.shutdown().await;
+                if let Some(p) = peer.take() {
+                    p.h.shutdown().await;
                 }
                 stop(nodes).await;
             }
@@ -501,8 +503,13 @@ struct FlightAnswer {
     info_schema: Vec<(String, String)>,
 }
 
+async fn connect_flight(addr: &str) -> Result<FlightServiceClient<tonic::transport::Channel>, String> {
+    let ch = tonic::transport::Channel::from_shared(format!("http://{}", addr)).map_err(|e| format!("uri: {}", e))?.connect().await.map_err(|e| format!("connect: {}", e))?;
+    Ok(FlightServiceClient::new(ch).max_decoding_message_size(64 << 20))
+}
+
 async fn flight_query(addr: &str, cmd: Vec<u8>) -> Result<FlightAnswer, String> {
-    let mut c = FlightServiceClient::connect(format!("http://{}", addr)).await.map_err(|e| format!("connect: {}", e))?;
+    let mut c = connect_flight(addr).await?;
     let info = c.get_flight_info(FlightDescriptor::new_cmd(cmd)).await.map_err(|s| format!("GetFlightInfo: {:?}: {}", s.code(), s.message()))?.into_inner();
     let info_schema: Vec<(String, String)> = info.clone().try_decode_schema().map(|s| s.fields().iter().map(|f| (f.name().clone(), crate::checks::meta::erase(f.data_type()))).collect()).unwrap_or_default();
     let ep = info.endpoint.first().ok_or("FlightInfo without endpoint")?;
@@ -512,7 +519,7 @@ async fn flight_query(addr: &str, cmd: Vec<u8>) -> Result<FlightAnswer, String> 
 
 async fn do_get(c: &mut FlightServiceClient<tonic::transport::Channel>, ticket: Ticket, info_schema: Vec<(String, String)>) -> Result<FlightAnswer, String> {
     let stream = c.do_get(ticket).await.map_err(|s| format!("DoGet: {:?}: {}", s.code(), s.message()))?.into_inner();
-    let mut dec = FlightDataDecoder::new(stream.map_err(arrow_flight::error::FlightError::Tonic));
+    let mut dec = FlightDataDecoder::new(stream.map_err(|e| arrow_flight::error::FlightError::Tonic(Box::new(e))));
     let mut batches = Vec::new();
     let mut trailer = None;
     let (mut names, mut types) = (Vec::new(), Vec::new());
@@ -667,7 +674,7 @@ pub fn run_c34(tier: Tier, seed: u64) -> i32 {
                 }
             }
             // malformed tickets
-            if let Ok(mut c) = FlightServiceClient::connect(format!("http://{}", fl)).await {
+            if let Ok(mut c) = connect_flight(&fl).await {
                 let good_sql = format!("SELECT COUNT(*) FROM {}", names[0]);
                 let tickets: Vec<(&str, Vec<u8>)> = vec![
                     ("not-json", b"SELECT 1".to_vec()),
